@@ -8,3 +8,4 @@ pub mod gen_pi;
 pub mod params;
 pub mod refs;
 pub mod bcn_ref;
+pub mod memfile;
